@@ -33,6 +33,8 @@ struct Session {
     awaiting_ack: VecDeque<(usize, oneshot::Sender<Result<RxPacket, MqttError>>)>,
     subscriptions: VecDeque<(usize, mpsc::UnboundedSender<RxPacket>)>,
     retrasmit_queue: VecDeque<(usize, Bytes)>,
+    // Identifiers of inbound QoS 2 messages answered with PUBREC and not yet released with PUBREL.
+    inbound_unreleased: VecDeque<u16>,
 }
 
 struct Connection {
@@ -95,6 +97,7 @@ where
         session.awaiting_ack.clear();
         session.subscriptions.clear();
         session.retrasmit_queue.clear();
+        session.inbound_unreleased.clear();
     }
 
     fn validate_packet_size(connection: &Connection, packet: &[u8]) -> Result<(), MqttError> {
@@ -228,6 +231,16 @@ where
                 let qos = publish.qos;
                 let maybe_packet_id = publish.packet_identifier;
 
+                // QoS 2 message sent again before its PUBREL: it has been delivered
+                // already, only the PUBREC is repeated.
+                if let (QoS::ExactlyOnce, Some(packet_id)) = (qos, maybe_packet_id) {
+                    if session.inbound_unreleased.contains(&packet_id.get()) {
+                        return Self::ack::<PubrecReason>(tx, packet_id).await;
+                    }
+
+                    session.inbound_unreleased.push_back(packet_id.get());
+                }
+
                 if let Some(subscription_identifier) =
                     publish
                         .subscription_identifier
@@ -330,6 +343,9 @@ where
             }
             RxPacket::Pubrel(pubrel) => {
                 let packet_id = pubrel.packet_identifier;
+                session
+                    .inbound_unreleased
+                    .retain(|&unreleased| unreleased != packet_id.get());
                 Self::ack::<PubcompReason>(tx, packet_id).await?
             }
             other => {
@@ -395,6 +411,7 @@ where
                     awaiting_ack: VecDeque::new(),
                     subscriptions: VecDeque::new(),
                     retrasmit_queue: VecDeque::new(),
+                    inbound_unreleased: VecDeque::new(),
                 },
                 connection: Connection {
                     disconnection_timestamp: None,
